@@ -19,7 +19,8 @@ func init() {
 		ShrinkColumns: true,
 		Gen:           genC06,
 		Check:         checkC06,
-		Required:      []string{"tie_on_distance", "tie_on_distance_and_completeness", "undefined_distance_seen", "results_arrived_out_of_query_order", "catchment_replacement_at_capacity"},
+		Required:      []string{"tie_on_distance", "tie_on_distance_and_completeness", "undefined_distance_seen", "catchment_replacement_at_capacity"},
+		Expected:      []string{"results_arrived_out_of_query_order"},
 	})
 }
 
